@@ -11,7 +11,7 @@ LEVEL = "proof"
 RULE = ("cases = one SCSS stylesheet calling selector.is-superselector on 1-3 generated selector lists (type, "
         "universal, namespaced, class, id, placeholder, attribute with operators/quotes/modifiers, pseudo-class, "
         "pseudo-element, selector-argument pseudos incl. :not/:is/:has/:current/vendor prefixes, all four "
-        "combinators, nesting depth <= 2); strata: refl (A,A), pair (independent / derived), triple-chain "
+        "combinators, relative selectors `> a` / `:has(+ a, ~ b)` with a leading combinator at top level and in pseudo arguments, nesting depth <= 2); strata: refl (A,A), pair (independent / derived), triple-chain "
         "(b derived from a, c from b by add-simple / add-ancestor / sub-list), triple-pool (three lists over a "
         "tiny vocabulary), member, add-simple, add-ancestor, attr-escape; the same object is printed as text "
         "for rsass and as a term for the model; non-trivial = at least one call returned true")
@@ -141,7 +141,7 @@ def fields(case):
     return law, pairs, len(f) - 11
 
 
-STATS = {"print_agree": 0, "print_differ": 0, "trans_hyp_met": 0, "trans_cases": 0}
+STATS = {"print_agree": 0, "print_differ": 0, "trans_hyp_met": 0, "trans_cases": 0, "cases_with_relative_selector": 0}
 
 
 def judge(case, impl, asis, spec):
@@ -151,6 +151,8 @@ def judge(case, impl, asis, spec):
         # the generated selectors are all valid: an error / crash is a failure of every law
         return Verdict(False, "is-superselector did not return booleans: " + impl[:60])
     bools, texts = got
+    if any(re.search(r"(^|[(,] ?)[>+~] ", t) for t in texts):
+        STATS["cases_with_relative_selector"] += 1
     mb, _, mprint = (asis or "").partition("|")
     mtexts = [unhx(h) for h in mprint.split(",")] if mprint else []
     if mtexts == texts:
